@@ -49,7 +49,7 @@ CHECKS = {
         design_ref="DESIGN.md §5 C08", note=_KM_NOTE + " Step counts and clone points are enumerated per harness, <= 9 elements.",
         technique="SAT-based bounded model checking (Kani/CBMC) with a universally quantified witness key"),
     "C09": dict(
-        text="retain: predicate answers are a solver variable (mask over the call index, i.e. every predicate), values mutated by a symbolic constant; drain_filter: answer mask, number of next() calls and drop-vs-forget enumerated per harness (a symbolic answer makes the cached iterators' position symbolic), contents symbolic. Exactly-once predicate calls, exact partition, early drop / forget semantics, INV afterwards.",
+        text="retain: predicate answers are a solver variable (mask over the call index, i.e. every predicate), values mutated by a symbolic constant; drain_filter: answer mask, number of next() calls and drop-vs-forget enumerated per harness (a symbolic answer makes the cached iterators' position symbolic), contents symbolic. Exactly-once predicate calls, exact partition, early drop / forget semantics, INV afterwards; HashSet::drain_filter likewise. Not covered: a panicking element destructor inside DrainFilter's Drop (the ConsumeAllOnDrop guard only runs during unwinding, which Kani does not execute; seed r9_C09 is a recorded miss).",
         design_ref="DESIGN.md §5 C09", note=_KM_NOTE,
         technique="SAT-based bounded model checking (Kani/CBMC); predicates as answer masks over the call index"),
     "C10": dict(
